@@ -1,6 +1,6 @@
 CONSTANTS
-    Primes = {17, 19}
-    Zs = {1, 2, 3, 4, 5, 6, 7, 8, 9, 10, 11, 12, 13, 14, 15, 16, 17, 18}
+    Primes = {17}
+    Zs = {1, 2, 3, 16}
 SPECIFICATION Spec
 INVARIANT Inv1
 CHECK_DEADLOCK FALSE
